@@ -94,6 +94,18 @@ func failingCfgs(n, t int, batches []Batch) []SignCfg {
 	return out
 }
 
+// failingFirstCfgs: one participant reports an error for the first batch (the others sign it) and
+// answers the second batch correctly; its report may arrive at any time, also after the second
+// batch was proposed - "answers of slow participants to an already finished batch do not prevent
+// the signing of later batches".
+func failingFirstCfgs(n, t int, batches []Batch) []SignCfg {
+	var out []SignCfg
+	for f := 0; f < n; f++ {
+		out = append(out, SignCfg{N: n, T: t, Batches: batches, Proposers: []int{0}, FailingFirst: []int{f}, MaxStates: 1500000})
+	}
+	return out
+}
+
 func c07(tier string, args []string) int {
 	r := newRun("C07", tier, "model_checking")
 	r.Assume = []string{
@@ -126,6 +138,7 @@ func c07(tier string, args []string) int {
 		job{n: 3, t: 2, cfgs: append(mk(3, 2, two, [][]int{nil, {0}, {1}, {2}}, none), mk(3, 2, two, [][]int{nil}, [][]int{{0}, {1}, {2}})...)},
 		job{n: 3, t: 3, cfgs: mk(3, 3, two, [][]int{nil, {1}}, none)},
 		job{n: 3, t: 2, cfgs: failingCfgs(3, 2, two)},
+		job{n: 3, t: 2, cfgs: failingFirstCfgs(3, 2, two)},
 		job{n: 3, t: 2, cfgs: mk(3, 2, two, [][]int{nil, {2}}, none), aged: true},
 	)
 	if tier == "thorough" {
